@@ -365,6 +365,11 @@ def contains(interp, container, item):
             r = interp.policy.contains(interp, container, item)
             if r is not PROCEED:
                 return r
+        if d.kind == 'list' and d.symlen is not None and isinstance(item, str):
+            # a constant string in a list of unknown length: an uninterpreted fact about that list (one boolean per list and constant), false for the empty list
+            b = z3.Bool('contains_%s_%s' % (d.name or container.id, item))
+            ctx.assume(z3.Implies(d.symlen == 0, z3.Not(b)))
+            return b
         raise Undecided('membership in symbolic list')
     if isinstance(container, (list, tuple, set, frozenset)):
         return _member(interp, item, list(container))
